@@ -181,4 +181,10 @@ Translate(W, x, target) ==
   IF ~HasIli(W, x) THEN {}
   ELSE {z \in Synsets(W) : z[1] \in SpecsAt(W.inst, Select(Db(W.T, W.inst), target, "~"))
                            /\ HasIli(W, z) /\ IliOf(W, z) = IliOf(W, x)}
+\* senses of the target lexicons whose synset shares the ILI: the image of the
+\* synset translation (each translated synset is seen by a wordnet of the targets)
+TargetSpecs(W, target) == SpecsAt(W.inst, Select(Db(W.T, W.inst), target, "~"))
+TranslateSenses(W, y, target) ==
+  {<<x[1], x[2]>> : x \in {x \in SenseRows(W) :
+       <<x[5], x[6]>> \in Translate(W, y, target) /\ x[1] \in TargetSpecs(W, target)}}
 =============================================================================
